@@ -403,9 +403,22 @@ type caseResult struct {
 func oneHistory(run *mon.Run, t *testing.T, idx int, seed int64) {
 	name := fmt.Sprintf("h%d", idx)
 	var res caseResult
-	stop := guard(name)
-	dl, stacks := drv.Bubble(t, func() { res = history(run, name, seed) })
-	stop()
+	resCh := make(chan caseResult, 1)
+	dl, stacks, frozen := drv.BubbleGuarded(t, func() { resCh <- history(run, name, seed) }, 240*time.Second)
+	if frozen == "mutex-wait" {
+		// synctest's blind spot (see drv.BubbleGuarded): the history is abandoned and not judged
+		run.Observe("histories_abandoned_bubble_clock_frozen_by_mutex_wait", 1)
+		run.Inconclusive("a history was abandoned: its bubble's clock was frozen by a goroutine waiting for a mutex (harness limit)")
+		return
+	}
+	if frozen != "" {
+		fmt.Printf("BROKEN property=C23 bubble %s did not end (real-time guard)\n%s\n", name, stacks)
+		os.Exit(2)
+	}
+	select {
+	case res = <-resCh:
+	default:
+	}
 	if dl != "" {
 		run.Violation("hang-or-leak", "sentinel|"+strings.Join(drv.RueidisFrames(stacks), ";"), map[string]any{"case": name, "seed": seed, "synctest": dl, "rueidis_frames": drv.RueidisFrames(stacks), "stacks": drv.Tail(stacks, 12000)})
 	}
